@@ -3,6 +3,12 @@ use std::collections::{BTreeMap, BTreeSet, HashSet};
 
 use serde_json::{Value, json};
 
+/// Set for runs under slow interpreters (Miri): generators produce smaller cases.
+pub static SMALL: std::sync::atomic::AtomicBool = std::sync::atomic::AtomicBool::new(false);
+pub fn small() -> bool {
+    SMALL.load(std::sync::atomic::Ordering::Relaxed)
+}
+
 #[derive(Clone, Copy, Debug, PartialEq, Eq)]
 pub enum Tier {
     Quick,
